@@ -28,8 +28,10 @@ fn main() {
         i += 1;
     }
     let code = match id.as_str() {
+        "SMOKE" => vcheck::checks::smoke::run(),
         "C02" => vcheck::checks::c02::run(tier, seed),
         "C09" => vcheck::checks::c09::run(tier, seed),
+        "C13" => vcheck::checks::c13::run(tier, seed),
         _ => {
             println!("INCONCLUSIVE property={id} reason=unknown check");
             2
